@@ -421,6 +421,7 @@ func (t *tr) goStmt(x *ast.GoStmt) {
 		t.goSite[x] = name
 	}
 	static := t.g.static && !t.cur.ps.eff
+	visitedGo[x] = true
 	t.spawn(name, fn, args, static, t.g.daemon, t.site(x, "go "+name))
 }
 
